@@ -221,6 +221,8 @@ def gen_point_spec(rng, mode, allow_now=True):
         spec["offsets"] = [gen_offset(rng, "hms", False) for _ in range(
             rng.choice([0, 1, 2]))]
         return spec
+    if r < 0.16:
+        return gen_pfmt_spec(rng, mode, spec)
     notation = gen_notation(rng)
     w = gen_written(rng, mode, notation)
     spec.update(src=rng.choice(["arg"] * 6 + ["stdin", "ref_opt", "ref_env"]),
@@ -238,6 +240,46 @@ def gen_point_spec(rng, mode, allow_now=True):
             n2["time"] = "hms"
         spec["pf"] = {"notation": n2, "text": notation_format(n2)}
     elif r < 0.3:
+        spec["pf"] = {"strf": rng.choice(STRF_FORMATS)}
+    return spec
+
+
+PARSE_FORMATS = [("%d/%m/%Y %H:%M:%S", "hms", False),
+                 ("%Y%m%d%H", "h", False),
+                 ("%Y-%j", None, False),
+                 ("%F %X %z", "hms", True),
+                 ("%Y%m%dT%H%M%S%z", "hms", True),
+                 ("%H:%M %d.%m.%Y", "hm", False),
+                 ("%Y/%j %H", "h", False)]
+
+
+def gen_pfmt_spec(rng, mode, spec):
+    """A date-time written under --parse-format (documented strptime
+    subset); without a print format it is printed back under that format."""
+    fmt, tform, zoned = rng.choice(PARSE_FORMATS)
+    n = {"date": "ord_ext" if "%j" in fmt else "cal_ext", "ystyle": "ccyy",
+         "time": tform, "dec": ",", "zone": "hhmm" if zoned else None}
+    # only valid fields: what an impossible date does under a user-supplied
+    # strptime format is decided by the documented fallback to the system's
+    # (lenient, Gregorian) strptime, not by anything C19 states
+    w = gen_written(rng, mode, n, p_invalid=0)
+    if w.get("H") == 24:
+        w["H"] = 0
+    if "%j" in fmt and cm.written_valid(w, mode):
+        y, m, d = model.from_ordinal(mode, w["y"], w["doy"])
+        w.update(m=m, d=d)
+    elif "%j" in fmt:
+        w.update(m=1, d=1)
+    else:
+        w["doy"] = 0
+    if zoned and abs(w["off"]) >= 6000:
+        w["off"] = 330
+    f = dict(w, wy=w["y"])
+    text = cm.render_strf(fmt, f, w["off"] or 0, 0)
+    spec.update(src="arg", notation=n, written=w, text=text, pfmt=fmt)
+    spec["offsets"] = [gen_offset(rng, "hms") for _ in range(
+        rng.choice([0, 1, 1, 2]))]
+    if rng.random() < 0.25:
         spec["pf"] = {"strf": rng.choice(STRF_FORMATS)}
     return spec
 
@@ -299,6 +341,9 @@ def gen_invocation(rng, world_state):
             name = rng.choice(["--print-format", "--format", "-f"])
             groups.append(["%s=%s" % (name, txt)] if name.startswith("--")
                           and rng.random() < 0.5 else [name, txt])
+        if spec.get("pfmt"):
+            name = rng.choice(["--parse-format", "-p"])
+            groups.append([name, spec["pfmt"]])
         src = spec["src"]
         items = []
         if src == "arg":
@@ -621,6 +666,32 @@ class Sim(object):
         for off_in in in_offs:
             t_us = cm.written_instant_us(w, mode, off_in)
             out_off = 0 if utc else off_in
+            strf = None
+            if pf is None and spec.get("pfmt"):
+                strf = spec["pfmt"]
+            elif pf is not None and "strf" in pf:
+                strf = pf["strf"]
+            if strf is not None:
+                f = cm.civil_fields(mode, t_us + total, out_off)
+                text = cm.render_strf(strf, f, out_off,
+                                      t_us + total)
+                outs.add(text if text is not None else "REFUSE")
+                if (t_us + total) % 10 ** 6 and "%s" in strf and (
+                        text is not None):
+                    # %s of a fractional instant: a whole number of seconds,
+                    # floored or (before 1970) truncated toward zero; beyond
+                    # ~1e9 s a double no longer resolves the microsecond and
+                    # .999999 may round up to the next second
+                    outs.add(cm.render_strf(strf, f, out_off,
+                                            t_us + total + 10 ** 6))
+                if w.get("H") == 24 and total == 0 and out_off == off_in:
+                    f24 = cm.civil_fields(mode, t_us - 86400 * 10 ** 6,
+                                          out_off)
+                    f24.update(H=24, M=0, S=0, us=0)
+                    alt = cm.render_strf(strf, f24, out_off, t_us)
+                    if alt is not None:
+                        outs.add(alt)
+                continue
             if pf is None:
                 out_n = n
             elif "notation" in pf:
@@ -631,8 +702,6 @@ class Sim(object):
                     return None
                 if out_n["zone"] == "Z":
                     out_off = 0
-            else:
-                return None
             f = cm.civil_fields(mode, t_us + total, out_off)
             text = cm.render(out_n, f, out_off)
             outs.add(text if text is not None else "REFUSE")
@@ -661,7 +730,10 @@ class Sim(object):
         utc = spec.get("utc")
         parser = parsers.TimePointParser(
             assumed_time_zone=(0, 0) if utc else None)
-        p = parser.parse(spec["text"], dump_as_parsed=True)
+        if spec.get("pfmt"):
+            p = parser.strptime(spec["text"], spec["pfmt"])
+        else:
+            p = parser.parse(spec["text"], dump_as_parsed=True)
         if utc:
             p = p.to_utc()
         dparser = parsers.DurationParser()
@@ -672,7 +744,9 @@ class Sim(object):
             else:
                 p = p + dparser.parse(text)
         pf = spec.get("pf")
-        if pf is None:
+        if pf is None and spec.get("pfmt"):
+            fmt = spec["pfmt"]
+        elif pf is None:
             fmt = p.dump_format
         else:
             fmt = pf.get("text") or pf["strf"]
